@@ -317,6 +317,9 @@ class OutputParser(TraceVisitor):
             raise JaqalError("Not enough outputs for this circuit") from None
         if isinstance(nxt, str):
             nxt = int(nxt[::-1], 2)
+        elif isinstance(nxt, bool):
+            # numpy would take a bool for a mask over the whole frequency table
+            nxt = int(nxt)
         mr = Readout(nxt, self.readout_index)
         subcircuit.accept_readout(mr)
         self.res.append(mr)
